@@ -16,6 +16,7 @@ import Driver.Rest
 import Driver.SanFilter
 import Driver.Sys
 import Driver.Pop3Conc
+import Driver.Ids
 open Driver
 
 /-
@@ -41,6 +42,7 @@ def main (args : List String) : IO UInt32 := do
   | ["rest"] => runLoop Driver.RestMode.step Driver.RestMode.init
   | ["sys"] => runLoop Driver.SysMode.step Driver.SysMode.init
   | ["popconc"] => runLoop Driver.Pop3ConcMode.step Driver.Pop3ConcMode.init
+  | ["ids"] => runLoop Driver.IdsMode.step ()
   | ["sanf"] => runLoop (fun (_ : Unit) toks => ((), Driver.SanFilter.handler toks)) ()
   | _ => IO.eprintln s!"unknown mode {args}"; return 2
   return 0
